@@ -830,7 +830,7 @@ fn known11(d: &[u8], deny: &str, hy: &str) -> bool {
     });
     let t = match r {
         Ok(t) => t,
-        Err(_) => return true,
+        Err(_) => return false, // a panic is never inside a Known class by itself
     };
     if !bidi_guess(d) {
         return false;
@@ -847,22 +847,23 @@ fn known12(d: &[u8], deny: &str, hy: &str) -> bool {
     });
     match r {
         Ok(t) => t.split('.').any(|l| l.starts_with("xn--")),
-        Err(_) => true,
+        Err(_) => false,
     }
 }
 
 // ---------------------------------------------------------------- the properties on the implementation
 fn deny_members(d: &str) -> Vec<u8> {
-    // by behaviour: a byte is denied iff to_ascii of "a<byte>a" fails or changes it (upper case is mapped)
+    // reference membership, independent of the implementation: what the documentation of the
+    // three constants and of AsciiDenyList::new says (upper case is always a member)
     (0u8..128)
         .filter(|&b| {
-            if b == b'.' {
-                return false;
-            }
-            let s = [b'a', b, b'a'];
-            match Uts46::new().to_ascii(&s, deny_of(d), Hyphens::Allow, DnsLength::Ignore) {
-                Ok(_) => false,
-                Err(_) => true,
+            let upper = b.is_ascii_uppercase();
+            let glyphless = b <= b' ' || b == 0x7F;
+            match d {
+                "E" => upper,
+                "S" => !(b.is_ascii_lowercase() || b.is_ascii_digit() || b == b'-' || b == b'.'),
+                "U" => upper || glyphless || b"%#/:<>?@[\\]^|".contains(&b),
+                _ => upper || glyphless || b == b'_',
             }
         })
         .collect()
